@@ -20,6 +20,12 @@ LAYOUTS = {
     'A': [('top', 'MASS', 0, False), ('bottom', 'HEAT', 0, False), ('interior', 'MASS', 0, False)],
     'B': [('top', 'MASS', 2, False), ('interior', 'MASS', 3, True), ('bottom', 'HEAT', 0, False), ('interior', 'COM1', 0, False)],
     'C': [('interior', 'MASS', 2, True), ('top', 'HEAT', 0, False), ('top', 'MASS', 0, False), ('bottom', 'MASS', 2, False)],
+    # top / bottom generators whose NAME does not follow the column of their block (5th item: 'other' = the name
+    # carries the next column's name, a 3-character string = a name that is no column at all).  A generator belongs
+    # to the column of its BLOCK; the code is free to rename such a generator, so these are matched by block.
+    'D': [('top', 'MASS', 0, False, 'other'), ('top', 'MASS', 0, False, 'rch'), ('bottom', 'HEAT', 2, False, 'hfl'),
+          ('interior', 'MASS', 0, False)],
+    'E': [('bottom', 'HEAT', 0, False, 'other'), ('top', 'MASS', 2, False, 'rch'), ('top', 'MASS', 0, False)],
 }
 
 TOPCAT = [' 1', ' 1t', ' 1', ' 1']
@@ -27,19 +33,25 @@ BOTCAT = ['99', '99b', '99', '99']
 
 
 def generator_plan(conv, layout, colnames, laynames):
-    """[(index, name, block, type, table length, enthalpy?)] for a layout on a geometry
-    with the given column / layer names (layer 0 = atmosphere layer)."""
+    """[(index, name, block, type, table length, enthalpy?, name follows the block's column?)] for a layout on a
+    geometry with the given column / layer names (layer 0 = atmosphere layer)."""
     out = []
     nlay = len(laynames) - 1
-    for gi, (where, typ, ntab, enth) in enumerate(LAYOUTS[layout]):
+    for gi, item in enumerate(LAYOUTS[layout]):
+        where, typ, ntab, enth = item[:4]
+        namecol = item[4] if len(item) > 4 else None
         col = colnames[gi % len(colnames)]
+        if namecol is None: ncol = col
+        elif namecol == 'other': ncol = colnames[(gi + 1) % len(colnames)]
+        else: ncol = namecol
+        follows = ncol == col
         if where == 'top':
-            blk, nm = own_block_name(conv, laynames[1], col), own_block_name(conv, TOPCAT[conv], col)
+            blk, nm = own_block_name(conv, laynames[1], col), own_block_name(conv, TOPCAT[conv], ncol)
         elif where == 'bottom':
-            blk, nm = own_block_name(conv, laynames[-1], col), own_block_name(conv, BOTCAT[conv], col)
+            blk, nm = own_block_name(conv, laynames[-1], col), own_block_name(conv, BOTCAT[conv], ncol)
         else:
             li = 2 if nlay >= 3 else nlay
             cat = ['w%d' % gi, 'w%dx' % gi, 'w%d' % gi, 'w%d' % gi][conv]
-            blk, nm = own_block_name(conv, laynames[li], col), own_block_name(conv, cat, col)
-        out.append((gi, nm, blk, typ, ntab, enth))
+            blk, nm = own_block_name(conv, laynames[li], col), own_block_name(conv, cat, ncol)
+        out.append((gi, nm, blk, typ, ntab, enth, follows))
     return out
